@@ -31,6 +31,7 @@ CONSTANTS
   LoadUnderLock = TRUE
   AbsentPurge = FALSE
   Reapplies = FALSE
+  ClientGones = FALSE
   Ghost = TRUE
 INVARIANTS
   TypeOK
